@@ -9,6 +9,9 @@ CONSTANTS
   MaxNons = 3
   WordCounts = {2, 5, 20}
   GenBlockTypes = {"b", "c", "g", "i", "s", "t", "u", "w"}
+  GenNoteKinds = {"title", "D", "R", "N", "E", "I", "M"}
+  GenSubTypes = {"B", "C", "S", "T", "W"}
+  Terse = FALSE
   Rich = TRUE
   Phased = TRUE
 CHECK_DEADLOCK FALSE
